@@ -56,6 +56,7 @@ fn cases(_ob: &str) -> Vec<String> {
     let mut out: Vec<String> = (0..table().len()).map(|i| format!("tok:{}", i)).collect();
     for ti in 0..REF_TOKENS.len() { out.push(format!("ref:{}", ti)); }
     for t in ["1+", "1-", "1/2", "1.5.6", "0x10", "12ab"] { out.push(format!("whole:{}", t)); }
+    for (i, _) in QUOTES.iter().enumerate() { out.push(format!("quotes:{}", i)); }
     out
 }
 
@@ -106,8 +107,37 @@ fn whole(case: &str) -> Option<String> {
     }
     None
 }
+const QUOTES: [(&str, &str); 4] = [("'", "quote"), ("`", "quasiquote"), (",", "unquote"), (",@", "unquote-splicing")];
+
+/// "always": the n-th shorthand a parser reads expands like the first (300 in one list, 300 one after the other, value and datum API, stream source)
+fn quotes(case: &str) -> Option<String> {
+    let (sh, head) = QUOTES[case[7..].parse::<usize>().ok()?];
+    let want = Value::list(vec![Value::symbol(head), Value::symbol("x")]);
+    let n = 300;
+    for o in [base(), Options::elisp()] {
+        let flat = format!("({})", vec![format!("{}x", sh); n].join(" "));
+        for (api, got) in [("value", from_str_custom(&flat, o.clone())), ("datum", lexpr::datum::from_str_custom(&flat, o.clone()).map(|d| d.value().clone())), ("reader", lexpr::from_reader_custom(flat.as_bytes(), o.clone()))] {
+            match got {
+                Ok(v) => if v != Value::list(vec![want.clone(); n]) { return Some(format!("a list of {} `{}x` reads as {:.60}... ({} API)", n, sh, v.to_string(), api)); },
+                Err(e) => return Some(format!("a list of {} `{}x` fails: {} ({} API)", n, sh, e, api)),
+            }
+        }
+        let seq = vec![format!("{}x", sh); n].join("\n");
+        let mut p = lexpr::Parser::from_str_custom(&seq, o.clone());
+        for i in 0..n {
+            match p.expect_value() { Ok(v) if v == want => {}, Ok(v) => return Some(format!("`{}x` number {} read by one parser reads as {}", sh, i + 1, v)), Err(e) => return Some(format!("`{}x` number {} read by one parser fails: {}", sh, i + 1, e)) }
+        }
+        let mut p = lexpr::Parser::from_str_custom(&seq, o.clone());
+        for i in 0..n {
+            match p.expect_datum() { Ok(d) if d.value() == &want => {}, Ok(d) => return Some(format!("`{}x` number {} read by one parser (datum API) reads as {}", sh, i + 1, d.value())), Err(e) => return Some(format!("`{}x` number {} read by one parser (datum API) fails: {}", sh, i + 1, e)) }
+        }
+    }
+    None
+}
+
 fn check(case: &str) -> Option<String> {
     if case.starts_with("whole:") { return whole(case); }
+    if case.starts_with("quotes:") { return quotes(case); }
     if case.starts_with("ref:") {
         let tok = REF_TOKENS[case[4..].parse::<usize>().ok()?];
         for oi in 0..1536 {
